@@ -38,32 +38,34 @@ func Dominates(a, b ssa.Instruction) bool {
 // Edge identifies a CFG edge by block indices.
 type Edge struct{ From, To int }
 
-// reachBlocks computes the blocks reachable from start following successor
-// edges, never entering a block in blockedBlocks and never following an edge in
-// blockedEdges. start itself is included unless blocked.
+// reachBlocks computes the blocks reachable from start following feasible
+// successor edges (see thread.go), never entering a block in blockedBlocks and
+// never following an edge in blockedEdges. start itself is included unless blocked.
 func reachBlocks(fn *ssa.Function, start *ssa.BasicBlock, blockedBlocks map[int]bool, blockedEdges map[Edge]bool) []bool {
 	seen := make([]bool, len(fn.Blocks))
 	if start == nil || blockedBlocks[start.Index] {
 		return seen
 	}
-	stack := []*ssa.BasicBlock{start}
-	seen[start.Index] = true
-	for len(stack) > 0 {
-		b := stack[len(stack)-1]
-		stack = stack[:len(stack)-1]
-		for _, s := range b.Succs {
-			if seen[s.Index] || blockedBlocks[s.Index] || blockedEdges[Edge{b.Index, s.Index}] {
+	w := newWalker(blockedEdges)
+	w.push(nil, start)
+	for {
+		st, ok := w.pop()
+		if !ok {
+			break
+		}
+		seen[st.b.Index] = true
+		for _, t := range feasibleSuccs(st.b, st.pred) {
+			if blockedBlocks[t.Index] {
 				continue
 			}
-			seen[s.Index] = true
-			stack = append(stack, s)
+			w.push(st.b, t)
 		}
 	}
 	return seen
 }
 
-// Reaches reports whether there is a CFG path on which a executes and later b
-// executes (a != b; loops are honoured).
+// Reaches reports whether there is a feasible CFG path on which a executes and
+// later b executes (a != b; loops are honoured).
 func Reaches(a, b ssa.Instruction) bool {
 	if a == nil || b == nil || a.Parent() != b.Parent() {
 		return false
@@ -72,38 +74,29 @@ func Reaches(a, b ssa.Instruction) bool {
 	if ab == bb && InstrIndex(a) < InstrIndex(b) {
 		return true
 	}
-	fn := a.Parent()
-	seen := make([]bool, len(fn.Blocks))
-	var stack []*ssa.BasicBlock
-	for _, s := range ab.Succs {
-		if !seen[s.Index] {
-			seen[s.Index] = true
-			stack = append(stack, s)
-		}
+	w := newWalker(nil)
+	// a's block was entered from an unknown predecessor
+	for _, t := range ab.Succs {
+		w.push(ab, t)
 	}
-	for len(stack) > 0 {
-		x := stack[len(stack)-1]
-		stack = stack[:len(stack)-1]
-		if x == bb {
+	for {
+		st, ok := w.pop()
+		if !ok {
+			return false
+		}
+		if st.b == bb {
 			return true
 		}
-		for _, s := range x.Succs {
-			if !seen[s.Index] {
-				seen[s.Index] = true
-				stack = append(stack, s)
-			}
-		}
+		w.pushSuccs(st)
 	}
-	return false
 }
 
-// ReachesAvoiding reports whether some path from (after) a reaches b without
-// executing any instruction for which avoid returns true.
+// ReachesAvoiding reports whether some feasible path from (after) a reaches b
+// without executing any instruction for which avoid returns true.
 func ReachesAvoiding(a, b ssa.Instruction, avoid func(ssa.Instruction) bool) bool {
 	if a == nil || b == nil || a.Parent() != b.Parent() {
 		return false
 	}
-	fn := a.Parent()
 	// scan helper: walk block instrs from index i; returns (foundB, blocked)
 	scan := func(blk *ssa.BasicBlock, from int) (bool, bool) {
 		for i := from; i < len(blk.Instrs); i++ {
@@ -124,68 +117,32 @@ func ReachesAvoiding(a, b ssa.Instruction, avoid func(ssa.Instruction) bool) boo
 	if blocked {
 		return false
 	}
-	seen := make([]bool, len(fn.Blocks))
-	var stack []*ssa.BasicBlock
-	push := func(blk *ssa.BasicBlock) {
-		for _, s := range blk.Succs {
-			if !seen[s.Index] {
-				seen[s.Index] = true
-				stack = append(stack, s)
-			}
-		}
+	w := newWalker(nil)
+	for _, t := range a.Block().Succs {
+		w.push(a.Block(), t)
 	}
-	push(a.Block())
-	for len(stack) > 0 {
-		x := stack[len(stack)-1]
-		stack = stack[:len(stack)-1]
-		f, bl := scan(x, 0)
+	for {
+		st, ok := w.pop()
+		if !ok {
+			return false
+		}
+		f, bl := scan(st.b, 0)
 		if f {
 			return true
 		}
 		if bl {
 			continue
 		}
-		push(x)
+		w.pushSuccs(st)
 	}
-	return false
 }
 
-// ReachableFromEntryAvoiding reports whether target can execute on some path
-// from the function entry on which no instruction satisfying avoid executed
-// before it. It is the negation of "avoid-instructions must be passed through
-// before target".
+// ReachableFromEntryAvoiding reports whether target can execute on some
+// feasible path from the function entry on which no instruction satisfying
+// avoid executed before it. It is the negation of "avoid-instructions must be
+// passed through before target".
 func ReachableFromEntryAvoiding(target ssa.Instruction, avoid func(ssa.Instruction) bool) bool {
-	fn := target.Parent()
-	if fn == nil || len(fn.Blocks) == 0 {
-		return false
-	}
-	seen := make([]bool, len(fn.Blocks))
-	stack := []*ssa.BasicBlock{fn.Blocks[0]}
-	seen[0] = true
-	for len(stack) > 0 {
-		x := stack[len(stack)-1]
-		stack = stack[:len(stack)-1]
-		blocked := false
-		for _, in := range x.Instrs {
-			if in == target {
-				return true
-			}
-			if avoid(in) {
-				blocked = true
-				break
-			}
-		}
-		if blocked {
-			continue
-		}
-		for _, s := range x.Succs {
-			if !seen[s.Index] {
-				seen[s.Index] = true
-				stack = append(stack, s)
-			}
-		}
-	}
-	return false
+	return ReachableFromEntryAvoidingEdges(target, avoid, nil)
 }
 
 // Guard is a conditional edge that every path to an instruction must take.
@@ -469,14 +426,15 @@ func ReachableFromEntryAvoidingEdges(target ssa.Instruction, avoid func(ssa.Inst
 	if fn == nil || len(fn.Blocks) == 0 {
 		return false
 	}
-	seen := make([]bool, len(fn.Blocks))
-	stack := []*ssa.BasicBlock{fn.Blocks[0]}
-	seen[0] = true
-	for len(stack) > 0 {
-		x := stack[len(stack)-1]
-		stack = stack[:len(stack)-1]
+	w := newWalker(blocked)
+	w.push(nil, fn.Blocks[0])
+	for {
+		st, ok := w.pop()
+		if !ok {
+			return false
+		}
 		stop := false
-		for _, in := range x.Instrs {
+		for _, in := range st.b.Instrs {
 			if in == target {
 				return true
 			}
@@ -488,14 +446,8 @@ func ReachableFromEntryAvoidingEdges(target ssa.Instruction, avoid func(ssa.Inst
 		if stop {
 			continue
 		}
-		for _, s := range x.Succs {
-			if !seen[s.Index] && !blocked[Edge{x.Index, s.Index}] {
-				seen[s.Index] = true
-				stack = append(stack, s)
-			}
-		}
+		w.pushSuccs(st)
 	}
-	return false
 }
 
 // SilentSkip explores the loop body that starts at `body` and reports whether
@@ -503,17 +455,23 @@ func ReachableFromEntryAvoidingEdges(target ssa.Instruction, avoid func(ssa.Inst
 // instruction and without taking an edge accepted by allowed (a legitimate
 // skip). It returns the position-bearing instruction of the offending branch.
 func SilentSkip(body, head *ssa.BasicBlock, sink func(ssa.Instruction) bool, allowed func(iff *ssa.If, branch bool) bool) (bool, ssa.Instruction) {
-	seen := map[*ssa.BasicBlock]bool{}
+	seen := map[[2]int]bool{}
 	var last ssa.Instruction
-	var walk func(b *ssa.BasicBlock) bool
-	walk = func(b *ssa.BasicBlock) bool {
+	var walk func(b, pred *ssa.BasicBlock) bool
+	walk = func(b, pred *ssa.BasicBlock) bool {
 		if b == head {
 			return true
 		}
-		if seen[b] {
+		k := [2]int{b.Index, -1}
+		if pred != nil && threadable(b) {
+			k[1] = predIndex(b, pred)
+		} else {
+			pred = nil
+		}
+		if seen[k] {
 			return false
 		}
-		seen[b] = true
+		seen[k] = true
 		for _, in := range b.Instrs {
 			if sink(in) {
 				return false
@@ -523,12 +481,21 @@ func SilentSkip(body, head *ssa.BasicBlock, sink func(ssa.Instruction) bool, all
 			return false
 		}
 		term := b.Instrs[len(b.Instrs)-1]
+		feas := feasibleSuccs(b, pred)
+		isFeasible := func(t *ssa.BasicBlock) bool {
+			for _, f := range feas {
+				if f == t {
+					return true
+				}
+			}
+			return false
+		}
 		if iff, ok := term.(*ssa.If); ok && len(b.Succs) == 2 {
 			for k, br := range []bool{true, false} {
-				if allowed(iff, br) {
+				if allowed(iff, br) || !isFeasible(b.Succs[k]) {
 					continue
 				}
-				if walk(b.Succs[k]) {
+				if walk(b.Succs[k], b) {
 					if last == nil {
 						last = iff
 					}
@@ -537,8 +504,8 @@ func SilentSkip(body, head *ssa.BasicBlock, sink func(ssa.Instruction) bool, all
 			}
 			return false
 		}
-		for _, s := range b.Succs {
-			if walk(s) {
+		for _, s := range feas {
+			if walk(s, b) {
 				if last == nil {
 					last = term
 				}
@@ -547,7 +514,7 @@ func SilentSkip(body, head *ssa.BasicBlock, sink func(ssa.Instruction) bool, all
 		}
 		return false
 	}
-	r := walk(body)
+	r := walk(body, nil)
 	return r, last
 }
 
@@ -590,8 +557,6 @@ func CheckedOnPaths(c *ssa.Call, x ssa.Instruction) bool {
 		return false
 	}
 	// reachability from c to x with the nil-edges removed
-	seen := make([]bool, len(fn.Blocks))
-	var stack []*ssa.BasicBlock
 	cb := c.Block()
 	// within c's own block after c
 	for i := InstrIndex(c) + 1; i < len(cb.Instrs); i++ {
@@ -599,24 +564,19 @@ func CheckedOnPaths(c *ssa.Call, x ssa.Instruction) bool {
 			return false
 		}
 	}
-	for _, s := range cb.Succs {
-		if !blocked[Edge{cb.Index, s.Index}] && !seen[s.Index] {
-			seen[s.Index] = true
-			stack = append(stack, s)
-		}
+	w := newWalker(blocked)
+	for _, t := range cb.Succs {
+		w.push(cb, t)
 	}
-	for len(stack) > 0 {
-		b := stack[len(stack)-1]
-		stack = stack[:len(stack)-1]
-		if b == x.Block() {
+	for {
+		st, ok := w.pop()
+		if !ok {
+			break
+		}
+		if st.b == x.Block() {
 			return false
 		}
-		for _, s := range b.Succs {
-			if !blocked[Edge{b.Index, s.Index}] && !seen[s.Index] {
-				seen[s.Index] = true
-				stack = append(stack, s)
-			}
-		}
+		w.pushSuccs(st)
 	}
 	return Reaches(c, x)
 }
